@@ -635,6 +635,26 @@ def s_int_minmax(ex, st, callee, args, argv, f):
     return ok1(st, z3.If(lt, a, b))
 
 
+def s_vec_reserve(ex, st, callee, args, argv, f):
+    """Vec::reserve / reserve_exact: capacity is not modelled; std's Vec panics ("capacity overflow") when len + additional exceeds
+    isize::MAX, heapless has no reserve"""
+    v = ex.deref_val(st, argv[0])
+    add = argv[1]
+    if not (isinstance(v, SeqV) and z3.is_bv(add)):
+        raise Unsupported("reserve(%r, %r)" % (v, add))
+    total = z3.Int2BV(z3.Length(v.e), 64) + add
+    too = z3.Or(z3.ULT(total, add), z3.UGT(total, z3.BitVecVal((1 << 63) - 1, 64)))
+    outs = []
+    if ex.feasible(st, too):
+        s2 = st.clone()
+        s2.pc.append(too)
+        outs.append(Outcome(s2, panic=Panic("capacity overflow", callee)))
+    s3 = st.clone()
+    s3.pc.append(z3.Not(too))
+    outs.append(Outcome(s3, ret=UNIT))
+    return outs
+
+
 def s_identity(ex, st, callee, args, argv, f):
     return ok1(st, argv[0])
 
@@ -659,6 +679,7 @@ COMMON = [
     (r"^std::mem::take::<", s_mem_take),
     (r"^std::mem::replace::<", s_mem_replace),
     (r"^Vec::<u8>::clear$|^(?:heapless::)?Vec::<u8, \d+>::clear$", s_vec_clear),
+    (r"^Vec::<u8>::(?:reserve|reserve_exact)$", s_vec_reserve),
     (r"^Vec::<u8>::len$|^(?:heapless::)?Vec::<u8, \d+>::len$", s_vec_len),
     (r"^Vec::<u8>::is_empty$|^(?:heapless::)?Vec::<u8, \d+>::is_empty$", s_vec_is_empty),
     (r"^Option::<u8>::take$", s_option_take),
